@@ -37,6 +37,7 @@ type MCmd struct {
 	Extend     bool     // pause --extend
 	Warn       bool     // run with warnings enabled (klog's default) instead of --no-warn
 	Ticks      []int    // pause: clock offsets in seconds (relative to the command's start) at the iterations of the loop
+	ForeignEdit int     // pause: before iteration k (k >= 1) of the loop somebody else appends a valid record to the file (0 = never)
 	Sabotage   int      // pause: before iteration k (k >= 2) of the loop somebody else leaves the file unparseable (0 = never)
 }
 
@@ -146,6 +147,9 @@ func (c MCmd) String() string {
 	s := strings.Join(c.Args(), " ")
 	if c.Kind == "pause" {
 		s += fmt.Sprintf(" ticks=%v", c.Ticks)
+		if c.ForeignEdit > 0 {
+			s += fmt.Sprintf(" foreign-edit-before-iteration=%d", c.ForeignEdit)
+		}
 	}
 	return s
 }
@@ -237,6 +241,9 @@ type MResult struct {
 	Panic    *core.PanicInfo
 	Rejected bool // arguments rejected before the command ran (decoder level)
 	Writes   int  // number of ReconcileFile calls that returned success (struct path only)
+	// ForeignEdit: the file as klog had left it when the other party came, and as the other party left it
+	ForeignBefore, ForeignAfter string
+	ForeignDone                 bool
 }
 
 // reconcileSpy counts successful writes.
@@ -254,6 +261,23 @@ func runMutating(e *core.Env, c MCmd, env MEnv, file string, viaCLI bool) MResul
 		if c.Kind == "pause" && s == "\033[H\033[J" {
 			if c.Sabotage >= 2 && iter == c.Sabotage-1 && file != "" {
 				_ = os.WriteFile(file, []byte("this is no longer a klog file\n    (somebody is editing it)\n"), 0644)
+			}
+			if c.ForeignEdit >= 1 && iter == c.ForeignEdit-1 && file != "" {
+				if b, rerr := os.ReadFile(file); rerr == nil {
+					t := string(b)
+					res.ForeignBefore = t
+					if t != "" && !strings.HasSuffix(t, "\n") {
+						t += "\n"
+					}
+					other := env.Today.Plus(-400)
+					if env.Today.Days()-ref.MinDay < 500 {
+						other = env.Today.Plus(400)
+					}
+					t += "\n" + ref.FormatDate(other, true) + "\n    1h added by somebody else while klog pause was running\n"
+					if os.WriteFile(file, []byte(t), 0644) == nil {
+						res.ForeignAfter, res.ForeignDone = t, true
+					}
+				}
 			}
 			if iter < len(c.Ticks) {
 				cx.Clock = clock.Add(time.Duration(c.Ticks[iter]) * time.Second)
